@@ -352,6 +352,13 @@ def check(ctx):
     layout.r_partition(ctx, 'R01.6')
     binding.r_base_pattern(ctx, 'R01.7')
     binding.r_tags(ctx, 'R01.8')
+    from . import c08, c09
+    c07_ = __import__('sa.props.c07', fromlist=['x'])
+    c07_.r_layout_tables(ctx, 'R01.11')
+    c08.r_equations(ctx)
+    c08.r_wiring(ctx)
+    c09.r_equations(ctx)
+    c09.r_stack(ctx)
     # constants: the value a literal denotes and its structural encoding (shared with C07 / C11)
     from . import c07, c11
     from .. import guards
